@@ -91,7 +91,11 @@ func H_C02_process_cancelled() {
 	root := &linkedNode{node: f, nodeID: "f", next: []*linkedNode{{node: s, nodeID: "s"}}}
 	g.roots.Store("p", &registeredPipeline{rootNode: root})
 	ctx := verifCancelledCtx(nondetBool())
+	// whether the range goroutine finishes (and closes the status channel) before the collector first looks is up to the
+	// scheduler: both orders are explored
+	verifGoOrder(true)
 	st, err := g.process(ctx, &Event{Type: "t", Formatted: map[string][]byte{}})
+	verifGoOrder(false)
 	verifAssert((err != nil) == verifOr(len(st.complete) < g.successThreshold, len(st.completeSinks) < g.successThresholdSinks), "C02.cancelled.error-iff-thresholds-unmet")
 	if err != nil {
 		verifAssert(errors.Is(err, ctx.Err()), "C02.cancelled.error-wraps-ctx-err")
